@@ -17,6 +17,7 @@ PLAN = dict(
                 "exposes authority-index and ordering errors that a single-signer example cannot."),
     level_note=NOTE_BASE,
     runs=[
+        dict(name="conc", run="^(TestConcSignatures)$", checks=(40, 2000), shards=(2, 8), timeout=(400, 3600), race=True),
         dict(name="sig", run="^(TestPropSignatures|TestCorpus)$", checks=(700, 75000), shards=(2, 16), timeout=(300, 3600)),
         # the command-line entry point of the same signer (sign-bundle signatures-section), which is anchored in this property too; the sub-check lives in the CLI package c20
         # several bundles signed with ONE certificate-chain value, each counter-signed by its own second signer, judged after all have been signed (sub-check of the purity package c18)
